@@ -269,15 +269,19 @@ where
             .delivery_tag
             .clone()
             .ok_or(LinkStateError::IllegalState)?;
-        let settled = self
-            .send_transfer_without_modifying_unsettled_map(writer, transfer, payload)
-            .await?;
-        #[cfg(fe2o3_amqp_verif)]
-        crate::verif::point("send.after_enqueue").await;
-        match settled {
-            true => Ok(Settlement::Settled(delivery_tag)),
-            // If not set on the first (or only) transfer for a (multi-transfer)
-            // delivery, then the settled flag MUST be interpreted as being false.
+        // If not set on the first (or only) transfer for a (multi-transfer)
+        // delivery, then the settled flag MUST be interpreted as being false.
+        let settled = transfer.settled.unwrap_or(matches!(
+            self.snd_settle_mode,
+            SenderSettleMode::Settled
+        ));
+
+        // The delivery is recorded as unsettled BEFORE the transfer is handed to the session:
+        // the peer's disposition may be processed by the session engine before this task runs
+        // again, and it resolves the send only if it finds the entry. The entry is taken out
+        // again if the transfer is not handed over (error, or this future is dropped).
+        let mut pending = match settled {
+            true => None,
             false => {
                 let (tx, rx) = oneshot::channel();
                 let unsettled = UnsettledMessage::new(payload_copy, None, message_format, tx);
@@ -287,10 +291,28 @@ where
                         .get_or_insert(OrderedMap::new())
                         .insert(delivery_tag.clone(), unsettled);
                 }
+                Some((
+                    RemoveUnsettledOnDrop {
+                        unsettled: &self.unsettled,
+                        delivery_tag: Some(delivery_tag.clone()),
+                    },
+                    rx,
+                ))
+            }
+        };
 
+        self.send_transfer_without_modifying_unsettled_map(writer, transfer, payload)
+            .await?;
+        #[cfg(fe2o3_amqp_verif)]
+        crate::verif::point("send.after_enqueue").await;
+
+        match pending.take() {
+            None => Ok(Settlement::Settled(delivery_tag)),
+            Some((mut guard, outcome)) => {
+                guard.delivery_tag = None;
                 Ok(Settlement::Unsettled {
                     delivery_tag,
-                    outcome: rx,
+                    outcome,
                 })
             }
         }
@@ -906,5 +928,21 @@ where
             Some(reason) => SenderAttachError::SessionStopped(reason.clone()),
             None => SenderAttachError::IllegalState, // defensive: no stop reason recorded; failure is link-local
         },
+    }
+}
+
+/// Takes a delivery out of the unsettled map again unless disarmed
+struct RemoveUnsettledOnDrop<'a> {
+    unsettled: &'a ArcSenderUnsettledMap,
+    delivery_tag: Option<DeliveryTag>,
+}
+
+impl Drop for RemoveUnsettledOnDrop<'_> {
+    fn drop(&mut self) {
+        if let Some(delivery_tag) = self.delivery_tag.take() {
+            if let Some(map) = self.unsettled.write().as_mut() {
+                map.swap_remove(&delivery_tag);
+            }
+        }
     }
 }
